@@ -1,6 +1,8 @@
 import DnsVerif.Lemmas.EncName
 import DnsVerif.Props.C11
 import DnsVerif.Lemmas.EncLimMsg
+import DnsVerif.Lemmas.ExtraA
+import DnsVerif.Lemmas.ApiOk
 
 /-! # C08 — encode reports an error instead of emitting an out-of-range message
 
@@ -63,6 +65,38 @@ theorem encode_limits_header {m : Msg} {b : Bytes} (hs : EncLim.ShapedMsg m) (h 
   obtain ⟨h1, h2, h3, _⟩ := EncLim.encode_limits hs h
   exact ⟨h1, h2, h3⟩
 
+/-- on success, the rest of `EncLim.encode_limits`: the two count octets read back as the section sizes;
+EVERY record of the message occupies a segment `name ++ TYPE/CLASS/TTL ++ RDLENGTH ++ body` of the output
+in which RDLENGTH holds the TRUE body length, which is at most 65,535 (not wrapped, not truncated), its
+owner was written as literal labels (each ≤ 255) plus root octet or ONE pointer with target ≤ 0x3FFF, every
+length-checked string of it (character-strings, uncompressed labels, `alpn` ids) has at most 255 octets,
+every APL address part fewer than 128 octets, every SvcParam value at most 65,535 octets, every EDNS option
+with its four header octets at most 65,535; every question occupies `name ++ QTYPE ++ QCLASS` -/
+theorem encode_limits_records {m : Msg} {b : Bytes} (hs : EncLim.ShapedMsg m) (h : encodeDns m = .ok b) :
+    (beVal (beBytes 2 m.qs.length) = m.qs.length ∧ beVal (beBytes 2 m.an.length) = m.an.length ∧
+      beVal (beBytes 2 m.ns.length) = m.ns.length ∧ beVal (beBytes 2 m.ar.length) = m.ar.length) ∧
+    (∀ rr ∈ EncLim.msgRRs m, ∃ pre nm body post,
+      b = pre ++ nm ++ EncLim.rrFixed rr ++ beBytes 2 body.length ++ body ++ post ∧
+      body.length ≤ 65535 ∧ beVal (beBytes 2 body.length) = body.length ∧
+      EncLim.NameWritten nm (EncLim.rrOwner rr) ∧
+      (∀ s ∈ EncLim.rdataChecked rr, s.length ≤ 255) ∧
+      (∀ it ∈ EncLim.rrAplItems rr, (stripZeros it.addr).length < 128) ∧
+      (∀ p ∈ EncLim.rrSvcParams rr, (EncLim.svcBody p).length ≤ 65535) ∧
+      (∀ o ∈ EncLim.rrOptions rr, (EncLim.optionBody o).length + 4 ≤ 65535)) ∧
+    (∀ q ∈ m.qs, ∃ pre nm post,
+      b = pre ++ nm ++ beBytes 2 q.qtype ++ beBytes 2 q.qclass ++ post ∧ EncLim.NameWritten nm q.name) :=
+  (EncLim.encode_limits hs h).2.2.2
+
+/-- the same for one record encoded on its own (`RR::encode`) -/
+theorem encodeRR_limits {rr : RR} {b : Bytes} (hs : EncLim.Shaped rr) (h : encodeRR rr = .ok b) :
+    ∃ nm body, b = nm ++ EncLim.rrFixed rr ++ beBytes 2 body.length ++ body ∧
+      body.length ≤ 65535 ∧ beVal (beBytes 2 body.length) = body.length ∧
+      EncLim.NameWritten nm (EncLim.rrOwner rr) ∧
+      (∀ s ∈ EncLim.rdataChecked rr, s.length ≤ 255) ∧
+      (∀ it ∈ EncLim.rrAplItems rr, (stripZeros it.addr).length < 128) ∧
+      (∀ p ∈ EncLim.rrSvcParams rr, (EncLim.svcBody p).length ≤ 65535) ∧
+      (∀ o ∈ EncLim.rrOptions rr, (EncLim.optionBody o).length + 4 ≤ 65535) := EncLim.encodeRR_limits hs h
+
 /-- a section of more than 65,535 entries is refused before anything of it is written -/
 theorem unrepresentable_section {m : Msg} (h : EncLim.CountOver m) : encodeDns m = .error .length :=
   EncLim.unrepresentable_err_section' h
@@ -71,6 +105,81 @@ theorem unrepresentable_section {m : Msg} (h : EncLim.CountOver m) : encodeDns m
 theorem unrepresentable_string {m : Msg} (hs : EncLim.ShapedMsg m)
     (h : ∃ rr ∈ EncLim.msgRRs m, ∃ s ∈ EncLim.rdataChecked rr, 255 < s.length) : ∃ err, encodeDns m = .error err :=
   EncLim.unrepresentable_err_string hs h
+
+/-- assumed: a shaped message containing an OPT record with an EDNS option (any kind, padding included)
+whose data plus its four header octets exceeds 65,535 octets; then `Dns::encode` fails -/
+theorem unrepresentable_option {m : Msg} (hs : EncLim.ShapedMsg m)
+    (h : ∃ rr ∈ EncLim.msgRRs m, ∃ o ∈ EncLim.rrOptions rr, 65535 < (EncLim.optionBody o).length + 4) :
+    ∃ err, encodeDns m = .error err := EncLim.unrepresentable_err_option hs h
+
+/-- assumed: a shaped message containing a ServiceMode SVCB / HTTPS record with a parameter whose value
+(`EncLim.svcBody`, e.g. an `ech` of more than 65,533 octets) exceeds 65,535 octets; then `Dns::encode` fails -/
+theorem unrepresentable_svcparam {m : Msg} (hs : EncLim.ShapedMsg m)
+    (h : ∃ rr ∈ EncLim.msgRRs m, ∃ p ∈ EncLim.rrSvcParams rr, 65535 < (EncLim.svcBody p).length) :
+    ∃ err, encodeDns m = .error err := EncLim.unrepresentable_err_svcparam hs h
+
+/-- assumed: a shaped message containing an APL item whose address, cut after its last non-zero octet, still
+has 128 or more octets (AFDLENGTH has 7 bits); then `Dns::encode` fails -/
+theorem unrepresentable_apl_item {m : Msg} (hs : EncLim.ShapedMsg m)
+    (h : ∃ it ∈ EncLim.msgAplItems m, 128 ≤ (stripZeros it.addr).length) : ∃ err, encodeDns m = .error err :=
+  EncLim.unrepresentable_err_apl hs h
+
+/-- the exact error kinds of the ITEM writers, from every encoder state and with no premise on the value:
+a string over 255 octets ⇒ `String`; a non-padding option with data over 65,535 ⇒ `Length`; an APL address
+part over 255 ⇒ `Length`, of 128..=255 ⇒ `APLAddressLength`; a SvcParam with an `alpn` id over 255 ⇒
+`String`, otherwise a value over 65,535 ⇒ `Length` (in particular `ech`) -/
+theorem unrepresentable_items (e : Enc) :
+    (∀ s : Bytes, 255 < s.length → e.cstr s = .error .string) ∧
+    (∀ o, EncLim.isPadding o = false → 65535 < (EncLim.optionBody o).length → encOption e o = .error .length) ∧
+    (∀ it : APItem, 255 < (stripZeros it.addr).length → encApItem e it = .error .length) ∧
+    (∀ it : APItem, 128 ≤ (stripZeros it.addr).length → (stripZeros it.addr).length ≤ 255 →
+      encApItem e it = .error .aplAddressLength) ∧
+    (∀ p, (∃ s ∈ EncLim.svcStrs p, 255 < s.length) → encSvcParam e p = .error .string) ∧
+    (∀ p, (¬ ∃ s ∈ EncLim.svcStrs p, 255 < s.length) → 65535 < (EncLim.svcBody p).length →
+      encSvcParam e p = .error .length) ∧
+    (∀ b : Bytes, 65535 < b.length → encSvcParam e (.ech b) = .error .length) := EncLim.unrepresentable_err_items e
+
+/-- STATED ON AN INTERMEDIATE ENCODER STATE (the size of a message depends on name compression, so it is
+not a function of the value alone): assumed is that, after the 12 header octets, the sections of `m` are
+written successfully (`EncLim.msgBody`, reaching state `e'`) and the output then has more than 65,535 octets;
+then `Encoder::dns` fails with `Length`. Value-level consequences: `encode_limits_header` (`Ok` ⇒ at most
+65,535 octets) and `encode_total` (uncompressed size ≤ 65,535 and the other limits ⇒ `Ok`). -/
+theorem unrepresentable_message (e : Enc) {m : Msg} {e' : Enc}
+    (hb : EncLim.msgBody m (e.put (EncLim.msgHeader m)) = .ok e') (h : 65535 < e'.out.length) :
+    encMsg e m = .error .length := EncLim.unrepresentable_err_message e hb h
+
+/-- STATED ON INTERMEDIATE ENCODER STATES (RDATA may contain compressed names, so its length is not a
+function of the value alone): assumed is that the owner name is written successfully from `e` (reaching
+`e1`), then the RDATA writer succeeds after TYPE/CLASS/TTL and the two RDLENGTH placeholder octets (reaching
+`e2`), and more than 65,535 octets were appended after the placeholder; then `Encoder::rr` fails with
+`Length` — it never emits a wrapped or truncated RDLENGTH. -/
+theorem unrepresentable_rdata {e e1 e2 : Enc} {rr : RR} (hs : EncLim.Shaped rr)
+    (h1 : encName e (EncLim.rrOwner rr) = .ok e1)
+    (h2 : EncLim.rrBody rr ((e1.put (EncLim.rrFixed rr)).put [0, 0]) = .ok e2)
+    (hlen : 65535 < e2.out.length - ((e1.put (EncLim.rrFixed rr)).put [0, 0]).out.length) :
+    encRR e rr = .error .length := EncLim.encRR_window_too_long hs h1 h2 hlen
+
+/-- value level, OPT: assumed is only that the record is an OPT record whose options, each with its four
+header octets (`EncLim.optionSize`), add up to more than 65,535 octets (e.g. one `Padding(65532)`); then
+`Encoder::rr` fails with `Length`, from every encoder state -/
+theorem unrepresentable_rdata_opt (e : Enc) {rr : RR} {payload ext ver : Nat} {dnssec : Bool} {opts : List EdnsOpt}
+    (hk : rrKind rr.ty = some .opt) (hrd : rr.rd = .opt payload ext ver dnssec opts)
+    (h : 65535 < (opts.map EncLim.optionSize).sum) : encRR e rr = .error .length :=
+  ExtraA.encRR_opt_too_long e hk hrd h
+
+/-- value level, APL: assumed is only that the record is an APL record whose items (four header octets plus
+the address octets up to the last non-zero one, `EncLim.apItemSize`) add up to more than 65,535 octets; then
+`Encoder::rr` fails, from every encoder state -/
+theorem unrepresentable_rdata_apl (e : Enc) {rr : RR} {items : List APItem}
+    (hk : rrKind rr.ty = some .apl) (hrd : rr.rd = .apl items)
+    (h : 65535 < (items.map EncLim.apItemSize).sum) : ∃ err, encRR e rr = .error err :=
+  ExtraA.encRR_apl_too_long e hk hrd h
+
+/-- non-vacuity: an OPT record with one padding option of 65,532 octets -/
+example : encRR {} ⟨[], 41, 0, 0, .opt 1232 0 0 false [.padding 65532]⟩ = .error .length :=
+  unrepresentable_rdata_opt {} rfl rfl (by
+    simp only [List.map_cons, List.map_nil, List.sum_cons, List.sum_nil, EncLim.optionSize, EncLim.optionBody,
+      List.length_replicate]; omega)
 
 /-- pointer octets written by the name writer decode to the table offset, which is below 16384 -/
 theorem pointer_offsets {off : Nat} (h : off ≤ 0x3FFF) :
@@ -93,5 +202,86 @@ theorem K4c_witness :
     encodeRR ⟨[], 27, 1, 0, .fields [.bytes [], .bytes [49], .bytes [50]]⟩ =
       .ok [0, 0, 27, 0, 1, 0, 0, 0, 0, 0, 5, 0, 1, 49, 1, 50] ∧
     decodeRR [0, 0, 27, 0, 1, 0, 0, 0, 0, 0, 5, 0, 1, 49, 1, 50] = .error .gpos := EncLim.K4c_gpos_empty
+
+/-! ## The last clause as a theorem: EXACTLY the recorded classes violate it
+
+`ApiOk m` (Lemmas/ApiOk.lean): what the Rust types and the public constructors / setters / validators
+guarantee about a `Dns` value and nothing more — integer widths, UTF-8 `String`s, validated newtypes,
+`BTreeSet` order, supported enum variants; NO wire limit that `encode` checks itself (those lead to an
+encode error) and NOT the absence of the four classes below, which public fields allow.
+`Finding.K3 m := 15 < m.flags.rcode`; `Finding.K4a / K4b / K4c m`: some record of the message is an
+SVCB/HTTPS record with a `PRIVATE` parameter whose number is `≤ 6` or `65535` / an SVCB/HTTPS record with
+priority 0 and a non-empty parameter set / a GPOS record with an empty longitude, latitude or altitude. -/
+
+/-- **Classification**: an API-constructible value that `Dns::encode` accepts is well-formed (the premise
+of `C05.encode_decode`) or belongs to one of the four recorded classes. No fifth class exists: every
+conjunct of `WfMsg` is an API fact, a limit that a successful `encode` has checked, or the negation of
+K3 / K4a / K4b / K4c. -/
+theorem api_encode_ok_classified {m : Msg} {b : Bytes} (ha : ApiOk m) (h : encodeDns m = .ok b) :
+    WfMsg m ∨ Finding.K3 m ∨ Finding.K4a m ∨ Finding.K4b m ∨ Finding.K4c m := ApiOk.classified ha h
+
+/-- **"never a message that decodes to something else or not at all"** holds for every API-constructible
+value outside the four classes: what `encode` emits decodes, to the same value (up to ASCII case of names
+and the order of `mandatory` keys, `Msg.norm`) -/
+theorem api_encode_decodes_back {m : Msg} {b : Bytes} (ha : ApiOk m) (h3 : ¬ Finding.K3 m)
+    (h4a : ¬ Finding.K4a m) (h4b : ¬ Finding.K4b m) (h4c : ¬ Finding.K4c m) (h : encodeDns m = .ok b) :
+    ∃ m' d, decodeDns b = .ok (m', d) ∧ m'.norm = m.norm := ApiOk.decodes_back ha h3 h4a h4b h4c h
+
+/-- the record-level core: API facts + the limits `encode` checks + "not K4a/K4b/K4c" give `WfRR` -/
+theorem api_rr_classified {rr : RR} (ha : ApiOkRR rr) (hchk : ∀ s ∈ EncLim.rdataChecked rr, s.length ≤ 255)
+    (hsvc : ∀ p ∈ EncLim.rrSvcParams rr, (EncLim.svcBody p).length ≤ 65535) :
+    WfRR rr ∨ Finding.K4aRR rr ∨ Finding.K4bRR rr ∨ Finding.K4cRR rr := by
+  by_cases h4a : Finding.K4aRR rr
+  · exact Or.inr (Or.inl h4a)
+  by_cases h4b : Finding.K4bRR rr
+  · exact Or.inr (Or.inr (Or.inl h4b))
+  by_cases h4c : Finding.K4cRR rr
+  · exact Or.inr (Or.inr (Or.inr h4c))
+  exact Or.inl (ApiOk.rr_wf ha hchk hsvc h4a h4b h4c)
+
+/-- the decomposition read backwards: a well-formed value is in none of the classes, i.e.
+`WfMsg` = API facts + encoder limits + "not K3, K4a, K4b, K4c" -/
+theorem wf_not_finding {m : Msg} (hwf : WfMsg m) :
+    ¬ Finding.K3 m ∧ ¬ Finding.K4a m ∧ ¬ Finding.K4b m ∧ ¬ Finding.K4c m := ApiOk.wf_not_finding hwf
+
+/-- non-vacuity of `api_encode_decodes_back`: a response with A, GPOS, OPT (ECS, cookie, padding) and HTTPS
+(port, private key 7) records is API-constructible, in none of the classes, and encodes -/
+example : ApiOk ApiOk.okMsg ∧ (¬ Finding.K3 ApiOk.okMsg ∧ ¬ Finding.K4a ApiOk.okMsg ∧ ¬ Finding.K4b ApiOk.okMsg ∧
+    ¬ Finding.K4c ApiOk.okMsg) ∧ ∃ b, encodeDns ApiOk.okMsg = .ok b :=
+  ⟨ApiOk.okMsg_api, ApiOk.okMsg_not_finding, _, ApiOk.okMsg_encoded⟩
+
+/-- every disjunct is inhabited and none can be dropped: each witness is API-constructible, encodes `Ok`,
+is in exactly one class and is not well-formed … -/
+theorem classes_inhabited :
+    (ApiOk ApiOk.k3Msg ∧ Finding.K3 ApiOk.k3Msg ∧ ¬ Finding.K4a ApiOk.k3Msg ∧ ¬ Finding.K4b ApiOk.k3Msg ∧
+      ¬ Finding.K4c ApiOk.k3Msg ∧ ¬ WfMsg ApiOk.k3Msg ∧ ∃ b, encodeDns ApiOk.k3Msg = .ok b) ∧
+    (ApiOk ApiOk.k4aMsg ∧ ¬ Finding.K3 ApiOk.k4aMsg ∧ Finding.K4a ApiOk.k4aMsg ∧ ¬ Finding.K4b ApiOk.k4aMsg ∧
+      ¬ Finding.K4c ApiOk.k4aMsg ∧ ¬ WfMsg ApiOk.k4aMsg ∧ ∃ b, encodeDns ApiOk.k4aMsg = .ok b) ∧
+    (ApiOk ApiOk.k4bMsg ∧ ¬ Finding.K3 ApiOk.k4bMsg ∧ ¬ Finding.K4a ApiOk.k4bMsg ∧ Finding.K4b ApiOk.k4bMsg ∧
+      ¬ Finding.K4c ApiOk.k4bMsg ∧ ¬ WfMsg ApiOk.k4bMsg ∧ ∃ b, encodeDns ApiOk.k4bMsg = .ok b) ∧
+    (ApiOk ApiOk.k4cMsg ∧ ¬ Finding.K3 ApiOk.k4cMsg ∧ ¬ Finding.K4a ApiOk.k4cMsg ∧ ¬ Finding.K4b ApiOk.k4cMsg ∧
+      Finding.K4c ApiOk.k4cMsg ∧ ¬ WfMsg ApiOk.k4cMsg ∧ ∃ b, encodeDns ApiOk.k4cMsg = .ok b) := by
+  obtain ⟨a1, a2, a3, a4, a5, a6, a7⟩ := ApiOk.k3Msg_spec
+  obtain ⟨b1, b2, b3, b4, b5, b6, b7⟩ := ApiOk.k4aMsg_spec
+  obtain ⟨c1, c2, c3, c4, c5, c6, c7⟩ := ApiOk.k4bMsg_spec
+  obtain ⟨d1, d2, d3, d4, d5, d6, d7⟩ := ApiOk.k4cMsg_spec
+  exact ⟨⟨a1, a2, a3, a4, a5, a6, _, a7⟩, ⟨b1, b2, b3, b4, b5, b6, _, b7⟩, ⟨c1, c2, c3, c4, c5, c6, _, c7⟩,
+    ⟨d1, d2, d3, d4, d5, d6, _, d7⟩⟩
+
+/-- … and what it is encoded to decodes to a different value (K3: `cd = true`, rcode 0; K4a: `port 80`;
+K4b: no parameters) or not at all (K4c: `DecodeError::GPOS`) -/
+theorem classes_violate :
+    (∃ b d, encodeDns ApiOk.k3Msg = .ok b ∧ decodeDns b =
+      .ok ({ ApiOk.k3Msg with flags := { ApiOk.k3Msg.flags with cd := true, rcode := 0 } }, d)) ∧
+    (∃ b d, encodeDns ApiOk.k4aMsg = .ok b ∧
+      decodeDns b = .ok (ApiOk.one 0 ⟨[], 64, 1, 0, .svcb 1 [] [.port 80]⟩, d)) ∧
+    (∃ b d, encodeDns ApiOk.k4bMsg = .ok b ∧
+      decodeDns b = .ok (ApiOk.one 0 ⟨[], 64, 1, 0, .svcb 0 [[97]] []⟩, d)) ∧
+    (∃ b, encodeDns ApiOk.k4cMsg = .ok b ∧ decodeDns b = .error .gpos) := by
+  obtain ⟨d1, h1⟩ := ApiOk.k3Msg_decoded
+  obtain ⟨d2, h2⟩ := ApiOk.k4aMsg_decoded
+  obtain ⟨d3, h3⟩ := ApiOk.k4bMsg_decoded
+  exact ⟨⟨_, d1, ApiOk.k3Msg_spec.2.2.2.2.2.2, h1⟩, ⟨_, d2, ApiOk.k4aMsg_spec.2.2.2.2.2.2, h2⟩,
+    ⟨_, d3, ApiOk.k4bMsg_spec.2.2.2.2.2.2, h3⟩, ⟨_, ApiOk.k4cMsg_spec.2.2.2.2.2.2, ApiOk.k4cMsg_decoded⟩⟩
 
 end C08
